@@ -202,3 +202,26 @@ var gitcfgValues = map[string][]string{
 	"lfs.<url>.access":        {"none", "basic"},
 	"remote.<name>.lfsurl":    {"http://@HOST@/@TAG@/gitcfg-remote"},
 }
+
+// Keys that ARE on the documented allow-list by their shape (remote.<name>.lfsurl, lfs.<url>.access) but whose
+// subsection spells out an unsafe key. Both twins keep them (the documentation allows the key), so the oracle is
+// not the differential but the execution marker: the value names a sentinel program, and nothing in the user's
+// configuration defines a transfer agent or an extension. The fake endpoint selects any non-standard transfer
+// the client offers (hostile server named by, or reachable through, the repository).
+const cfCustomPath = "<allow-listed-key-embedding-lfs.customtransfer.n.path>"
+
+var confusionTemplates = []tmpl{
+	{Name: cfCustomPath, Sec: "remote", Subs: []string{"lfs.customtransfer.sent.path"}, Key: "lfsurl", Vals: []string{vProg}},
+	{Name: cfCustomPath, Sec: "lfs", Subs: []string{"customtransfer.sent.path"}, Key: "access", Vals: []string{vProg}},
+	{Name: cfCustomPath, Sec: "remote", Subs: []string{"x.lfs.customtransfer.sent.path.y", "@R1@.lfs.customtransfer.sent.path"}, Key: "lfsurl", Vals: []string{vProg}},
+	{Name: cfCustomPath, Sec: "lfs", Subs: []string{"http://@HOST@/lfs.customtransfer.sent.path", "xlfs.customtransfer.sent.path"}, Key: "access", Vals: []string{vProg}},
+	{Name: "<allow-listed-key-embedding-lfs.customtransfer.n.other>", Sec: "remote", Subs: []string{"lfs.customtransfer.sent.args", "lfs.customtransfer.sent.direction", "lfs.customtransfer.sent.concurrent"}, Key: "lfsurl", Vals: []string{vProg}},
+	{Name: "<allow-listed-key-embedding-lfs.customtransfer.n.other>", Sec: "lfs", Subs: []string{"customtransfer.sent.args", "customtransfer.sent.direction"}, Key: "access", Vals: []string{vProg}},
+	{Name: "<allow-listed-key-embedding-lfs.extension.n.cmd>", Sec: "remote", Subs: []string{"lfs.extension.sent.clean", "lfs.extension.sent.smudge"}, Key: "lfsurl", Vals: []string{vProgA}},
+	{Name: "<allow-listed-key-embedding-lfs.extension.n.cmd>", Sec: "lfs", Subs: []string{"extension.sent.clean", "extension.sent.smudge", "extension.sent.priority"}, Key: "access", Vals: []string{vProgA}},
+	{Name: "<allow-listed-key-embedding-lfs.standalonetransferagent>", Sec: "remote", Subs: []string{"lfs.standalonetransferagent", "lfs.@EP1@.standalonetransferagent"}, Key: "lfsurl", Vals: []string{"sent", vProg}},
+	{Name: "<allow-listed-key-embedding-lfs.standalonetransferagent>", Sec: "lfs", Subs: []string{"standalonetransferagent", "@EP1@.standalonetransferagent"}, Key: "access", Vals: []string{"sent", vProg}},
+	// the same confusion in keys that are not allow-listed: dropped by the filter, must stay invisible to every key scanner
+	{Name: "remote.<embedding-lfs.customtransfer.n.path>.lfspushurl", Sec: "remote", Subs: []string{"lfs.customtransfer.sent.path"}, Key: "lfspushurl", Vals: []string{vProg}},
+	{Name: "lfs.<embedding-customtransfer.n.path>.locksverify", Sec: "lfs", Subs: []string{"customtransfer.sent.path"}, Key: "locksverify", Vals: []string{vProg}},
+}
